@@ -408,18 +408,7 @@ def representatives(table, ncls):
 # ------------------------------------------------------------------ main
 
 
-def main():
-    warnings.simplefilter("ignore")
-    for p in (str(REPO / "src"),):
-        if p in sys.path:
-            sys.path.remove(p)
-        sys.path.insert(0, p)
-    import term_image
-    need(Path(term_image.__file__).resolve().is_relative_to((REPO / "src").resolve()),
-         f"term_image imported from {term_image.__file__}, not from {REPO}/src")
-    from term_image.image import BlockImage, ITerm2Image, KittyImage
-    from term_image.image import common
-
+def translate_source(common, classes):
     sets: list = []
     fmt = common._FORMAT_SPEC
     hole, group_names = style_spec_group(REPO / "src/term_image/image/common.py", fmt.groups)
@@ -434,7 +423,7 @@ def main():
     ALPHABG = t_abg.top()
 
     styles = {}
-    for cls in (BlockImage, KittyImage, ITerm2Image):
+    for cls in classes:
         pats = style_info(cls, common.BaseImage)
         if pats is None:
             styles[cls.__name__] = None
@@ -448,6 +437,38 @@ def main():
                 sets.append(tail)
             fields.append((tx.top(), tail, pat.pattern, pat.flags))
         styles[cls.__name__] = fields
+    return {"sets": sets, "FORMAT": FORMAT, "FORMAT_H": FORMAT_H, "NOVERT": NOVERT, "ALPHABG": ALPHABG,
+            "styles": styles, "hole": hole, "group_names": group_names,
+            "patterns": [("_FORMAT_SPEC", fmt), ("_NO_VERTICAL_SPEC", common._NO_VERTICAL_SPEC),
+                         ("_ALPHA_BG_FORMAT", common._ALPHA_BG_FORMAT)]}
+
+
+def main():
+    warnings.simplefilter("ignore")
+    for p in (str(REPO / "src"),):
+        if p in sys.path:
+            sys.path.remove(p)
+        sys.path.insert(0, p)
+    import term_image
+    need(Path(term_image.__file__).resolve().is_relative_to((REPO / "src").resolve()),
+         f"term_image imported from {term_image.__file__}, not from {REPO}/src")
+    from term_image.image import BlockImage, ITerm2Image, KittyImage
+    from term_image.image import common
+
+    refused = None
+    try:
+        src = translate_source(common, (BlockImage, KittyImage, ITerm2Image))
+    except Refuse as e:
+        # Fail closed, but keep the documentation side alive: the implementation's
+        # expressions become the empty language (no equivalence theorem can hold), the
+        # class table still refines the documented sets, so that the correspondence can
+        # judge the real format() against the documented grammar and find a failing input.
+        refused = str(e)
+        src = {"sets": [], "FORMAT": "CEmp", "FORMAT_H": "CEmp", "NOVERT": "CEmp", "ALPHABG": "CEmp",
+               "styles": {"BlockImage": None, "KittyImage": None, "ITerm2Image": None},
+               "hole": 0, "group_names": [], "patterns": []}
+    sets, FORMAT, FORMAT_H, NOVERT, ALPHABG = src["sets"], src["FORMAT"], src["FORMAT_H"], src["NOVERT"], src["ALPHABG"]
+    styles, hole, group_names = src["styles"], src["hole"], src["group_names"]
 
     thr = common._ALPHA_THRESHOLD
     need(isinstance(thr, float) and 0.0 <= thr < 1.0, f"_ALPHA_THRESHOLD = {thr!r}")
@@ -472,7 +493,10 @@ def main():
     A("    (src/term_image/image/common.py, kitty.py, iterm2.py) — do not edit; regenerated")
     A("    by every check run and by setup.sh.")
     A("")
-    for nm, p in (("_FORMAT_SPEC", fmt), ("_NO_VERTICAL_SPEC", common._NO_VERTICAL_SPEC), ("_ALPHA_BG_FORMAT", common._ALPHA_BG_FORMAT)):
+    if refused:
+        A("    *** THE TRANSLATOR REFUSED THE CURRENT SOURCE: " + coq_comment(refused))
+        A("    *** the implementation's expressions below are stubs (empty language)")
+    for nm, p in src["patterns"]:
         A(f"    {nm} = {coq_comment(p.pattern)}   flags {flagname(p.flags)}")
     A(f"    groups of _FORMAT_SPEC as unpacked by _check_format_spec: {', '.join(group_names)}")
     for nm, fs in styles.items():
@@ -485,6 +509,8 @@ def main():
     A("Import ListNotations.")
     A("From TI Require Import lib.Re lib.CRe.")
     A("Local Open Scope N_scope.")
+    A("")
+    A(f"Definition translation_refused : bool := {'true' if refused else 'false'}.")
     A("")
     A(f"Definition FORMAT_SPEC : cre :=\n  {FORMAT}.")
     A("")
@@ -522,6 +548,8 @@ def main():
     A("Definition class_reps : list (list N) :=\n  [ " + "; ".join("[" + "; ".join(map(str, r)) + "]" for r in reps) + " ].")
     A("")
     core.write_if_changed(OUT, "\n".join(L))
+    if refused:
+        raise Refuse(refused)
 
 
 def coq_comment(s):
@@ -532,5 +560,14 @@ if __name__ == "__main__":
     try:
         main()
     except Refuse as e:
+        # (the generated file already carries the stubs; if the refusal happened before it
+        # could be written, make sure that no stale translation keeps the theorems alive)
+        if not (OUT.exists() and "translation_refused : bool := true" in OUT.read_text()):
+            core.write_if_changed(OUT, "(* tx_regex.py REFUSED the current source: " + coq_comment(str(e)) + " *)\n"
+                                  "Definition translation_refused : False := the_source_is_outside_the_supported_subset.\n")
         print(f"tx_regex: REFUSED: {e}")
         sys.exit(1)
+    except Exception as e:  # cannot even import / inspect the source
+        core.write_if_changed(OUT, "(* tx_regex.py FAILED on the current source: " + coq_comment(repr(e)) + " *)\n"
+                              "Definition translation_failed : False := the_source_could_not_be_read.\n")
+        raise
